@@ -17,8 +17,8 @@ package proxy
 //       goroutine during the back-off at most the one attempt that may already have been
 //       decided can start;
 //   A5  result / status / body seen by the client are those of the last attempt made;
-//   A6  hanging backend + pool timeout => result "timeout", 408 (harness watchdog 120 s =>
-//       inconclusive).
+//   A6  hanging backend + pool timeout => result "timeout", 408, for buffered and for
+//       streamed request bodies (harness watchdog 120 s => inconclusive).
 
 import (
 	"fmt"
@@ -106,6 +106,8 @@ func c10GenCase(rng *rand.Rand, i int) *c10Case {
 	case "hang-timeout":
 		c.Pool.Timeout = []string{"5ms", "10ms", "20ms", "30ms"}[rng.Intn(4)]
 		c.Script = []c10Step{{Kind: "hang"}}
+		// the time limit holds for both body modes: a streamed body gets its single attempt
+		c.Stream = rng.Intn(2) == 0
 	case "hang-then-recover":
 		c.Pool.Timeout = []string{"5ms", "10ms", "20ms"}[rng.Intn(3)]
 		k := 1 + rng.Intn(max)
@@ -217,17 +219,7 @@ func c10Check(c *c10Case, res *c10Result) []string {
 	}
 	// A5 / A6
 	last := res.Attempts[m-1]
-	wr, ws, wb := c10ExpectFinal(last)
-	okFinal := res.Result == wr && res.Status == ws && res.Body == wb
-	if !okFinal && last.Kind == "neterr" && res.CancelAsked && res.Result == resultClientError && res.Status == 499 && res.Body == "" {
-		// a transport error that surfaces after the client has gone is the client's
-		okFinal = true
-	}
-	if !okFinal && last.Kind == "neterr" && c.Pool.Timeout != "" && res.Result == resultTimeout && res.Status == 408 && res.Body == "" {
-		// under load the pool's time limit may have expired before the (instant) transport
-		// error surfaced: then the attempt timed out — wall-clock upper bounds are not judged
-		okFinal = true
-	}
+	okFinal := c10FinalOK(&c.Pool, last, res)
 	if !okFinal {
 		bad = append(bad, fmt.Sprintf("final-outcome-not-last-attempts:last=%s:got=%s/%d", last.Kind, res.Result, res.Status))
 	}
@@ -237,7 +229,7 @@ func c10Check(c *c10Case, res *c10Result) []string {
 func TestVerif_C10_Retry(t *testing.T) {
 	r := kit.Start(t, "C10")
 	defer r.Finish()
-	r.Rule("systematic product of 11 script classes (all attempts fail; success at attempt k incl. k beyond maxAttempts; success first; hanging backend + pool timeout; hang/fail then recover; client cancel inside attempt k; cancel of a hanging attempt; cancel from another goroutine during the back-off; stream body; cancel with a back-off of 1ns..1us; random) x maxAttempts {omitted,1..5} x backOffPolicy {omitted,random,exponential} x randomizationFactor {0,0.1,0.25,0.5,1}, seeded waitDuration 5..40 ms, failure codes and failure kinds (failure code / network error); every sequence runs through the real Proxy.Handle -> ServerPool.handle -> RetryPolicy.Wrap with a scripted, time-stamping transport; distinct = (class, maxAttempts, back-off, rf, attempts made, kind of last attempt)")
+	r.Rule("systematic product of 11 script classes (all attempts fail; success at attempt k incl. k beyond maxAttempts; success first; hanging backend + pool timeout with a buffered or a streamed request body; hang/fail then recover; client cancel inside attempt k; cancel of a hanging attempt; cancel from another goroutine during the back-off; stream body; cancel with a back-off of 1ns..1us; random) x maxAttempts {omitted,1..5} x backOffPolicy {omitted,random,exponential} x randomizationFactor {0,0.1,0.25,0.5,1}, seeded waitDuration 5..40 ms, failure codes and failure kinds (failure code / network error); every sequence runs through the real Proxy.Handle -> ServerPool.handle -> RetryPolicy.Wrap with a scripted, time-stamping transport; distinct = (class, maxAttempts, back-off, rf, attempts made, kind of last attempt)")
 	r.Assume("success = 2xx response; failure = status listed in failureCodes, transport error, or context error; only lower bounds on real time are judged; policies are created with resilience.NewPolicy (documented defaults apply)")
 
 	old := fnSendRequest
@@ -336,7 +328,11 @@ func TestVerif_C10_Retry(t *testing.T) {
 			last = res.Attempts[m-1].Kind
 		}
 		if len(bad) == 0 {
-			r.Cover(fmt.Sprintf("%s/max%d/%s/rf%v/m%d/%s", c.Class, rc.MaxAttempts, rc.BackOff, rc.RF, m, last))
+			label := c.Class
+			if c.Stream && c.Class != "stream" {
+				label += "+stream-body"
+			}
+			r.Cover(fmt.Sprintf("%s/max%d/%s/rf%v/m%d/%s", label, rc.MaxAttempts, rc.BackOff, rc.RF, m, last))
 			r.Count("class_"+c.Class, 1)
 			if c.SyncCancel >= 0 && m == c.SyncCancel+1 && m < rc.effMax() {
 				r.Count("cancel_stopped_retries", 1)
@@ -346,6 +342,11 @@ func TestVerif_C10_Retry(t *testing.T) {
 			}
 			if last == "hang" && res.Result == resultTimeout {
 				r.Count("timeout_408_seen", 1)
+				if c.Stream {
+					r.Count("timeout_408_seen_stream_body", 1)
+				} else {
+					r.Count("timeout_408_seen_buffered_body", 1)
+				}
 			}
 			if c.Stream && m == 1 && last != "ok" {
 				r.Count("stream_single_attempt_on_failure", 1)
@@ -356,7 +357,7 @@ func TestVerif_C10_Retry(t *testing.T) {
 		}
 		p.Close()
 	}
-	for _, k := range []string{"reached_maxAttempts", "backoff_gaps_checked", "cancel_stopped_retries", "cancel_in_backoff_stopped_retries", "timeout_408_seen", "stream_single_attempt_on_failure", "stopped_at_first_success_after_retries"} {
+	for _, k := range []string{"reached_maxAttempts", "backoff_gaps_checked", "cancel_stopped_retries", "cancel_in_backoff_stopped_retries", "timeout_408_seen", "timeout_408_seen_stream_body", "timeout_408_seen_buffered_body", "stream_single_attempt_on_failure", "stopped_at_first_success_after_retries"} {
 		r.Require(k, 1)
 	}
 }
